@@ -756,7 +756,11 @@ MessageReceivedFromGateway(const MessageRef & msgRef, void * userData)
                if (copyField) (void) msg.CopyName(fn, _parameters);
             }
             if (updateDefaultMessageRoute) UpdateDefaultMessageRoute();
-            if (getMsg.HasName(PR_NAME_KEYS)) DoGetData(getMsg);  // return any data that matches the subscription
+            if (getMsg.HasName(PR_NAME_KEYS))
+            {
+               PushSubscriptionMessages();  // updates queued by a filter change above describe the state BEFORE the results below, so they must go out first
+               DoGetData(getMsg);  // return any data that matches the subscription
+            }
          }
          break;
 
